@@ -20,10 +20,32 @@ and the inverted index' private set cache are covered by the correspondence harn
 -/
 import SemaModel.C08.Lemmas
 import SemaModel.C04.Lemmas
+import SemaModel.Generated.FactsC08
 namespace Sema.C08
 open Sema List Sema.C04 Sema.Gen.FactsC04
 
 variable {K V P : Type} [DecidableEq K]
+
+/-! ### the source still has the shape the model transcribes (facts regenerated on every run) -/
+
+/-- itemcache.go: `Put` stores the element dirty; `Delete` marks it; `Flush` deletes-and-forgets
+deleted elements, writes when `IsDirty || CheckAndClearDirty()`, clears `IsDirty`; `ForEach` skips
+deleted elements and sets `isAllInCache` -/
+example : Gen.FactsC08.putSetsIsDirty = true ∧ Gen.FactsC08.deleteMarksIsDeleted = true ∧
+    Gen.FactsC08.flushDeletedCallsDeleteFrom = true ∧ Gen.FactsC08.flushDeletedForgetsItem = true ∧
+    Gen.FactsC08.flushWritesWhenIsDirtyOrCheckAndClearDirty = true ∧ Gen.FactsC08.flushDirtyCallsWriteTo = true ∧
+    Gen.FactsC08.flushClearsIsDirty = true ∧ Gen.FactsC08.forEachSkipsDeleted = true ∧
+    Gen.FactsC08.forEachSetsIsAllInCache = true := by decide
+
+/-- "who sets isDirty": every function of the anchored files that rewrites a cached value in place
+raises its dirty flag (or re-Puts it) — the syntactic side of `C08_mutation_dirty` -/
+example : ∀ m ∈ Gen.FactsC08.inPlaceMutations, m.setsDirty = true := by decide
+
+/-- persisted parameters: what the flush functions put, the constructors get -/
+example : Gen.FactsC08.vamanaFlushPutsMaxNodeId = true ∧ Gen.FactsC08.vamanaNewGetsMaxNodeId = true ∧
+    Gen.FactsC08.textFlushPutsNumDocuments = true ∧ Gen.FactsC08.textInitGetsNumDocuments = true ∧
+    binaryFlushPutsThreshold = true ∧ binaryNewGetsThreshold = true ∧
+    productFlushPutsCentroids = true ∧ productNewGetsCentroids = true := by decide
 
 /-! ### the invariant -/
 
